@@ -16,9 +16,11 @@ RULE = ("G-cond: #if/#elif/#else trees to depth 4 (elif chains to length 4) whos
         "declared before / after / inside other arms, labels, label-dependent and undeclared names, lazy and strict operators, "
         "now and then ill-typed; x 0..3 command-line defines (bare, true/false, decimal, 0x/0b/%/$ literals, negative, "
         "hierarchical a.c0, last-component-only, labels, undeclared, malformed) through the real driver; "
+        "plus chains of constants h0 = h1 = ... (1..5 links, forward/backward/shuffled, last link literal / literal expression / "
+        "non-static address-free expression / other constant / -d define) feeding an #if/#elif/#else with and without other #if blocks; "
         "non-trivial = distinct (program, defines) with at least one condition that reads a name")
 
-THEOREMS = ["eval_monotone", "C16_consistent", "C16_invisible", "C16_undecidable", "C16_define", "C16_unused"]
+THEOREMS = ["eval_monotone", "C16_consistent", "C16_invisible", "C16_undecidable", "C16_define", "C16_unused", "C16_loop_complete"]
 
 
 def directed():
@@ -137,8 +139,19 @@ def run(chk):
     model = vlib.ocaml_build("cond_driver", ["cond_model"])
     bins = vlib.harness_build(("debug", "release"))
     known = {f["class"]: f["id"] for f in vlib.known_findings() if f["property"] == "C16" and f["status"] == "known"}
-    ncases = 12000 if chk.tier == "quick" else 120000
+    ncases = 10000 if chk.tier == "quick" else 120000
     cases = [(t, d, "directed") for (t, d) in directed()]
+    # forward chains of constants feeding a condition: every length x every way the last link gets its value x other #if
+    # blocks present or not x defines on the last / first / middle link, under both settings of the static switch
+    crng = chk.rng.fork("chains")
+    for length in range(1, 6):
+        for last in ('lit', 'litexpr', 'neg', 'viaconst', 'define'):
+            for others in ([], ['true'], ['onq'], ['late'], ['declares'], ['true', 'late', 'declares']):
+                for define in (None, 0, length // 2):
+                    for order in (('forward', 'backward') if not others and define is None else ('forward',)):
+                        t, d = G.chain_case(crng, length, last, order, False, 'after' if define is None else 'before', others, define)
+                        cases.append((t, d, "chain"))
+                        cases.append((t, d, "chain/nostatic"))
     rng = chk.rng.fork("g-cond")
     for _ in range(ncases):
         t, d = G.gen_case(rng)
@@ -146,7 +159,7 @@ def run(chk):
 
     impl_lines, model_lines = [], []
     for idx, (t, d, _) in enumerate(cases):
-        optst = "0" if idx % 4 == 3 else "1"
+        optst = "0" if (cases[idx][2].endswith("/nostatic") or (cases[idx][2] == "random" and idx % 4 == 3)) else "1"
         dh = ";".join(vlib.hx(x) for x in d) if d else "-"
         impl_lines.append("C\t%s\t%s\t%s" % (optst, dh, vlib.hx(G.render(t))))
         model_lines.append("M\t%s\t%s\t%s" % (optst, dh, G.ser(t)))
